@@ -48,7 +48,7 @@ func vBackends(c *Config, n int) {
 
 func VerifValidateConfigRefuses() {
 	c := vBaseConfig()
-	switch vsym.Choose("class", 12) {
+	switch vsym.Choose("class", 14) {
 	case 0:
 		vsym.Fact("class", "missing dir")
 		c.Dir = ""
@@ -107,6 +107,23 @@ func VerifValidateConfigRefuses() {
 		c.HTTPAddress = vsym.Str("http_address")
 		vsym.Assume(vsym.Not(vsym.HasPrefix(c.HTTPAddress, "unix://")))
 		vsym.Assume(vsym.Not(vsym.Contains(c.HTTPAddress, ":")))
+	case 12:
+		vsym.Fact("class", "malformed gRPC listener address")
+		// whatever kind of HTTP listener is configured
+		c.HTTPAddress = []string{"localhost:8080", "unix:///run/http.sock", ":8080"}[vsym.Choose("http-listener", 3)]
+		c.GRPCAddress = vsym.Str("grpc_address")
+		vsym.Assume(c.GRPCAddress != "")
+		vsym.Assume(c.GRPCAddress != "none")
+		vsym.Assume(vsym.Not(vsym.HasPrefix(c.GRPCAddress, "unix://")))
+		vsym.Assume(vsym.Not(vsym.Contains(c.GRPCAddress, ":")))
+	case 13:
+		vsym.Fact("class", "malformed profiling listener address")
+		c.HTTPAddress = []string{"localhost:8080", "unix:///run/http.sock"}[vsym.Choose("http-listener", 2)]
+		c.ProfileAddress = vsym.Str("profile_address")
+		vsym.Assume(c.ProfileAddress != "")
+		vsym.Assume(c.ProfileAddress != "none")
+		vsym.Assume(vsym.Not(vsym.HasPrefix(c.ProfileAddress, "unix://")))
+		vsym.Assume(vsym.Not(vsym.Contains(c.ProfileAddress, ":")))
 	}
 	err := validateConfig(c)
 	vsym.Reach("validate-config-returned")
